@@ -1,0 +1,16 @@
+//go:build verif
+
+package req
+
+import (
+	h2internal "github.com/imroc/req/v3/internal/http2"
+)
+
+// VerifH2ConnStates (property C06 hook) snapshots the peer-limit bookkeeping of every
+// pooled HTTP/2 connection of this transport.
+func (t *Transport) VerifH2ConnStates() []h2internal.VerifConnState {
+	if t.t2 == nil {
+		return nil
+	}
+	return t.t2.VerifConnStates()
+}
